@@ -218,6 +218,7 @@ func MainCode(specs map[string]*Spec) int {
 	tier := flag.String("tier", "", "quick|thorough")
 	nruns := flag.Int("runs", 0, "override number of runs")
 	only := flag.Bool("only", false, "internal: execute exactly the run given by -from")
+	upto := flag.Int("upto", -1, "internal: stop after this run index")
 	flag.Parse()
 	if *tier == "" {
 		*tier = os.Getenv("VERIF_TIER")
@@ -235,7 +236,7 @@ func MainCode(specs map[string]*Spec) int {
 	}
 	seed := envSeed()
 	if *worker != "" {
-		return doWorker(spec, *tier, seed, *worker, *from, *out, *nruns, *only)
+		return doWorker(spec, *tier, seed, *worker, *from, *out, *nruns, *only, *upto)
 	}
 	return doMain(spec, *tier, seed, *nruns)
 }
@@ -251,7 +252,7 @@ func runGuarded(spec *Spec, c *Ctx, f func()) {
 	f()
 }
 
-func doWorker(spec *Spec, tier string, seed uint64, worker string, from int, out string, nruns int, only bool) int {
+func doWorker(spec *Spec, tier string, seed uint64, worker string, from int, out string, nruns int, only bool, upto int) int {
 	var k, w int
 	fmt.Sscanf(worker, "%d/%d", &k, &w)
 	n := spec.NumRuns(tier)
@@ -272,6 +273,9 @@ func doWorker(spec *Spec, tier string, seed uint64, worker string, from int, out
 	step := w
 	if only {
 		first, step, n = from, 1, from+1
+	}
+	if upto >= 0 && upto+1 < n {
+		n = upto + 1
 	}
 	for run := first; run < n; run += step {
 		if run < from {
@@ -593,6 +597,22 @@ func doMain(spec *Spec, tier string, seed uint64, nruns int) int {
 			code = cmd.ProcessState.ExitCode()
 		}
 		if code != 1 {
+			// does it depend on what the same worker process did before? replay the shard prefix
+			if st := rerunShard(self, spec, tier, seed, v.Run%w, w, v.Run, tmp, gmp); st != nil {
+				for _, v2 := range st.Violations {
+					if v2.Key == v.Key {
+						v.Trace = json.RawMessage(fmt.Sprintf(`{"rerun":true,"worker":%d,"of":%d,"upto":%d,"key":%q}`, v.Run%w, w, v.Run, v.Key))
+						v.Detail += fmt.Sprintf(" [not reproducible from the single run: it depends on what the same process executed before; the replay re-executes runs %d, %d, ... %d of this seed in one process]", v.Run%w, v.Run%w+w, v.Run)
+						path, rerr = writeReplay(spec, tier, seed, v)
+						if rerr == nil {
+							code = 1
+						}
+						break
+					}
+				}
+			}
+		}
+		if code != 1 {
 			fmt.Fprintf(os.Stderr, "HARNESS-ERROR property=%s violation (class %s, key %s) did not reproduce from %s in a fresh process (exit %d): %s\n%s\n", spec.Property, v.Class, v.Key, path, code, v.Detail, string(outb))
 			return 2
 		}
@@ -607,6 +627,41 @@ func doMain(spec *Spec, tier string, seed uint64, nruns int) int {
 	}
 	fmt.Printf("property=%s tier=%s runs=%d evaluations=%d distinct=%d violations=%d known=%d wall=%.1fs\n", spec.Property, tier, total.Runs, total.Evaluations, len(total.dset), nviol, len(knownLines), wall)
 	return exit
+}
+
+// rerunShard re-executes, in a fresh process, the runs worker k of w executed
+// up to and including run upto (a pure function of seed and code). It is the
+// replay of last resort for a violation that depends on what the same process
+// did before (process-wide state in the library): the single-run trace does
+// not reproduce it, the shard prefix does.
+func rerunShard(self string, spec *Spec, tier string, seed uint64, k, w, upto int, tmp, gmp string) *stats {
+	out := filepath.Join(tmp, fmt.Sprintf("shard-%d-%d-%d.json", k, w, upto))
+	os.Remove(out)
+	cmd := exec.Command(self, "-prop", spec.Property, "-tier", tier, "-worker", fmt.Sprintf("%d/%d", k, w), "-from", "0", "-upto", strconv.Itoa(upto), "-out", out)
+	cmd.Env = append(os.Environ(), "VERIF_SEED="+strconv.FormatUint(seed, 10), "GOMAXPROCS="+gmp)
+	done := make(chan error, 1)
+	if err := startChild(cmd); err != nil {
+		return nil
+	}
+	go func() { done <- cmd.Wait() }()
+	select {
+	case <-done:
+	case <-time.After(60 * time.Minute):
+		killChild(cmd)
+		<-done
+	}
+	doneChild(cmd)
+	defer os.Remove(out + ".progress")
+	b, err := ioutil.ReadFile(out)
+	if err != nil {
+		return nil
+	}
+	st := newStats()
+	if json.Unmarshal(b, st) != nil {
+		return nil
+	}
+	os.Remove(out)
+	return st
 }
 
 // rerunSingle executes exactly one run in a fresh process. It returns the
@@ -722,6 +777,24 @@ func doReplay(specs map[string]*Spec, path string) int {
 		self, _ := os.Executable()
 		tmp, _ := ioutil.TempDir("", "verif-replay-")
 		defer os.RemoveAll(tmp)
+		var sh struct {
+			Worker, Of, Upto int
+			Key              string
+		}
+		json.Unmarshal(rf.Trace, &sh)
+		if sh.Of > 0 {
+			st := rerunShard(self, spec, rf.Tier, rf.Seed, sh.Worker, sh.Of, sh.Upto, tmp, "2")
+			if st != nil {
+				for _, v := range st.Violations {
+					if v.Key == sh.Key {
+						fmt.Printf("VIOLATION property=%s replay=%s\n  class=%s key=%s\n  %s\n", rf.Property, path, v.Class, v.Key, v.Detail)
+						return 1
+					}
+				}
+			}
+			fmt.Printf("replay of %s: the shard prefix shows no violation with key %s on this tree\n", path, sh.Key)
+			return 0
+		}
 		detail, st := rerunSingle(self, spec, rf.Tier, rf.Seed, 0, 1, rf.Run, tmp, "2")
 		if st == nil {
 			fmt.Printf("VIOLATION property=%s replay=%s\n  class=crash key=crash\n  %s\n", rf.Property, path, detail)
